@@ -5,7 +5,7 @@ import ast
 import re
 
 from vk import astx, da, elect, facts
-from vk.algebra import Normalizer, bool_key, simplify, atoms_of, spec_guard, equivalent, NotClosedForm
+from vk.algebra import Normalizer, bool_key, simplify, atoms_of, spec_guard, equivalent, NotClosedForm, literals
 from vk.loader import AnalysisError
 from vk.paths import PathCounter, INF
 
@@ -521,6 +521,97 @@ def r6_bookkeeping(ctx):
                   "zero-vote candidates stay listed", "score dictionary is no longer initialised over every candidate of the profile")
 
 
+# --------------------------------------------------------------------------------------------- R7
+def r7_plurality_veto_shape(ctx):
+    """PluralityVeto has no counterpart in the other properties' rules: the step's veto mechanics."""
+    prog = ctx.prog
+    f = prog.find_func("PluralityVeto._run_step")
+    pm = astx.parents(f.node)
+    N = Normalizer(f.node, inline=True, int_atoms=lambda a: True)
+    Nl = Normalizer(f.node, inline=False)
+    # final round: remaining candidates == m, computed from the elimination table
+    hits = [n for n in astx.walk_own(f.node) if isinstance(n, ast.Assign) and astx.is_name(n.targets[0], "elected") and astx.u(n.value).endswith(".remaining")]
+    good = False
+    d = ""
+    if len(hits) == 1:
+        g = N.conj(astx.path_condition(f.node, hits[0], pm))
+        d = bool_key(g)
+        good = d in ("eq(len(self.eliminated_dict) - self.m - sum(self.eliminated_dict.values()), 0)", "eq(-len(self.eliminated_dict) + self.m + sum(self.eliminated_dict.values()), 0)")
+    ctx.check(good, f, hits[0] if hits else f.node, "PluralityVeto: the last round is reached iff (#candidates - #eliminated) == m", d,
+              f"final-round condition is `{d}`; documented: candidates not yet eliminated == m")
+    # the veto: one point off the last-placed candidate of the voter's current ballot
+    decs = [n for n in astx.walk_own(f.node) if isinstance(n, ast.AugAssign) and isinstance(n.op, ast.Sub)]
+    good = False
+    d = ""
+    if len(decs) == 1:
+        dn = decs[0]
+        tgt = astx.u(dn.target.slice) if isinstance(dn.target, ast.Subscript) else "?"
+        lp = astx.unique_def(f.node, tgt)
+        lastp = astx.unique_def(f.node, "last_place")
+        tb = [dv for st, dv in astx.defs_of(f.node, "tiebroken_ranking") if dv is not None]
+        d = f"{astx.u(dn)}; {tgt} = {astx.u(lp) if lp is not None else None}"
+        good = astx.u(dn.value) in ("Fraction(1)", "1") and lp is not None and re.fullmatch(r"list\((\w+)\[-1\]\)\[0\]", astx.u(lp)) is not None \
+            and lastp is not None and astx.u(lastp) == "self.preference_index[ballot_index]" \
+            and any(astx.u(x) == "(ballot.ranking[last_place],)" for x in tb) and any(astx.u(x).startswith("tiebreak_set(ballot.ranking[last_place]") for x in tb)
+    ctx.check(good, f, decs[0] if decs else f.node, "PluralityVeto: each voter takes exactly one point off the last-placed candidate of their current ballot", d,
+              f"veto step is `{d}`")
+    # elimination test and stop
+    good = False
+    if decs:
+        blk = pm[decs[0]]
+        seq = blk.body if decs[0] in blk.body else getattr(blk, "orelse", [])
+        nxt = seq[seq.index(decs[0]) + 1] if seq.index(decs[0]) + 1 < len(seq) else None
+        if isinstance(nxt, ast.If):
+            k = bool_key(Nl.guard(nxt.test))
+            tgt = astx.u(decs[0].target)
+            body = [astx.u(x) for x in nxt.body]
+            good = k == f"le({tgt}, 0)" and len(body) == 2 and body[0].startswith("eliminated_cands.append(") and body[1] == "break" and not nxt.orelse
+    ctx.check(good, f, decs[0] if decs else f.node, "PluralityVeto: a candidate reaching score <= 0 is eliminated and the round stops there", "",
+              "the elimination test after the veto is not `if score <= 0: eliminated.append(c); break`")
+    # skip voters whose ballot is exhausted; round 0 pre-eliminates zero-score candidates
+    pre = [dv for st, dv in astx.defs_of(f.node, "eliminated_cands") if isinstance(dv, ast.ListComp)]
+    good = len(pre) == 1 and [bool_key(Normalizer(None, inline=False).guard(t)) for t in pre[0].generators[0].ifs] == ["le(score, 0)"] and astx.u(pre[0].generators[0].iter).endswith(".scores.items()")
+    if good:
+        st = [st for st, dv in astx.defs_of(f.node, "eliminated_cands") if dv is pre[0]][0]
+        good = f"eq({f.params[2]}.round_number, 0)" in literals(Nl.conj(astx.path_condition(f.node, st, pm)))
+    ctx.check(good, f, pre[0] if pre else f.node, "PluralityVeto: candidates with no first-place votes are eliminated in the first round only", "", "round-0 pre-elimination changed")
+    # rotation of the voter order
+    rot = [n for n in astx.walk_own(f.node) if isinstance(n, ast.Assign) and astx.u(n.targets[0]) == "self.random_order"]
+    ctx.check(len(rot) == 1 and N.key(rot[0].value) == "self.random_order[rand_index + 1:] ++ self.random_order[:rand_index + 1]", f, rot[0] if rot else f.node,
+              "PluralityVeto: the next round continues with the voter after the one who caused the elimination", astx.u(rot[0].value)[:90] if rot else "",
+              "the circular shift of the voter order changed")
+    # bookkeeping of eliminated candidates
+    marks = [n for n in astx.walk_own(f.node) if isinstance(n, ast.Assign) and astx.u(n.targets[0]).startswith("self.eliminated_dict[") and astx.is_const(n.value, True)]
+    rc = astx.calls_in(f.node, "remove_cand")
+    good = len(marks) == 1 and isinstance(pm.get(marks[0]), ast.For) and astx.u(pm[marks[0]].iter) == "eliminated_cands" and len(rc) == 1
+    if good:
+        kw = {k.arg: astx.u(k.value) for k in rc[0].keywords}
+        good = astx.u(rc[0].args[0]) == "eliminated_cands" and astx.u(rc[0].args[1]) == f.params[1] and kw == {"condense": "False", "leave_zero_weight_ballots": "True"}
+    ctx.check(good, f, rc[0] if rc else f.node, "PluralityVeto: every eliminated candidate is marked and removed from all ballots, ballot positions kept aligned", "",
+              "marking / removal of eliminated candidates changed (condense=False, leave_zero_weight_ballots=True keep the per-voter indices valid)")
+    # constructor: one unit ballot per vote, uniformly shuffled voter order, all candidates unmarked
+    init = prog.find_func("PluralityVeto.__init__")
+    ctor = [c for c in astx.calls_in(init.node, "Ballot") if c.args or any(k.arg == "ranking" for k in c.keywords)]
+    good = False
+    if len(ctor) == 1:
+        c = ctor[0]
+        ipm = astx.parents(init.node)
+        loops = [l for l in astx.enclosing_loops(c, ipm, init.node) if isinstance(l, ast.For)]
+        kw = {k.arg: astx.u(k.value) for k in c.keywords}
+        good = len(loops) == 2 and astx.u(loops[0].iter) == f"range(int({astx.u(loops[1].target)}.weight))" and astx.u(loops[1].iter) in ("ballots", f"{init.params[1]}.ballots") \
+            and kw.get("weight") in ("Fraction(1, 1)", "Fraction(1)") and (astx.u(c.args[0]) if c.args else kw.get("ranking")) == f"{astx.u(loops[1].target)}.ranking"
+    ctx.check(good, init, ctor[0] if ctor else init.node, "PluralityVeto: every unit of weight becomes one voter with the same ranking", "", "decondensing of the profile changed")
+    sh = [c for c in astx.calls_in(init.node, "shuffle")]
+    ro = [n for n in astx.walk_own(init.node) if isinstance(n, ast.Assign) and astx.u(n.targets[0]) == "self.random_order"]
+    good = len(sh) == 1 and astx.u(sh[0].args[0]) == "self.random_order" and len(ro) == 1 and astx.u(ro[0].value) == "list(range(int(profile.num_ballots)))" and ro[0].lineno < sh[0].lineno
+    ctx.check(good, init, sh[0] if sh else init.node, "PluralityVeto: voter order = uniform shuffle of all voters", "", "voter order initialisation changed")
+    ed = [n for n in astx.walk_own(init.node) if isinstance(n, ast.Assign) and astx.u(n.targets[0]) == "self.eliminated_dict"]
+    ctx.check(len(ed) == 1 and astx.u(ed[0].value) == "{c: False for c in profile.candidates}", init, ed[0] if ed else init.node, "PluralityVeto: nobody is eliminated at the start", "", "elimination table initialisation changed")
+    pi = [n for n in list(astx.walk_own(init.node)) + list(astx.walk_own(f.node)) if isinstance(n, ast.Assign) and astx.u(n.targets[0]) == "self.preference_index"]
+    ctx.check(len(pi) == 2 and all(astx.u(x.value) == "[len(ballot.ranking) - 1 if ballot.ranking else -1 for ballot in self.ballot_list]" for x in pi), f, pi[0] if pi else f.node,
+              "PluralityVeto: a voter's veto position is the last position of their current ballot (-1 when exhausted), recomputed after every round", "", "preference_index computation changed")
+
+
 RULES = [
     ("C01.R1", r1_definite_assignment, 60, "no unbound local on a feasible path of election code (predicate-refined definite assignment)"),
     ("C01.R2", r2_progress, 12, "every recording step path appends a state; single-round rules exactly one; only _run_election records"),
@@ -528,6 +619,7 @@ RULES = [
     ("C01.R4", r4_raise_census, 40, "every explicit raise in election code is ValueError/TypeError/guarded IndexError/documented"),
     ("C01.R5", r5_boundary_tie, 4, "unbroken boundary tie => ValueError; loop stops at the first index reaching m; resolution returned"),
     ("C01.R6", r6_bookkeeping, 12, "candidates removed from the profile = candidates recorded as elected/eliminated"),
+    ("C01.R7", r7_plurality_veto_shape, 10, "PluralityVeto veto mechanics: final-round test, one point off the last place, stop at <= 0, rotation, bookkeeping"),
 ]
 
 
